@@ -18,6 +18,8 @@ PROGRAMS = {
     "script": {"root": "stop", "edit": ["stop", "sh", "leaf"], "arg": True, "opts": {"sh": {"script": True}}},
     # a job pinned to a second executor; C28 also compares dry and real runs on a scheduler that LACKS that executor
     "badexec": {"root": "xtop", "edit": ["xtop", "xleaf", "leaf"], "arg": True, "opts": {"xleaf": {"executor": "alt"}}, "drop_executor": "alt"},
+    # a Handle is created in the root and passed to a child task
+    "handle": {"root": "hmain", "edit": ["hmain", "huse"], "arg": True},
     "shallow": {"root": "top", "edit": ["top", "mid", "leaf"], "arg": True, "opts": {"top": {"check_valid": "shallow"}}},
 }
 
